@@ -20,6 +20,10 @@ CHECKS = {
          "All programs up to N output nodes in 14 wrapper constructs x every fault point (k-th evaluated call fails, j-th Write of the caller's writer fails or is short) are run on Execute, ExecuteBytes, ExecuteWriter and ExecuteWriterUnbuffered with a recording writer; agreement, all-or-nothing, prefix and error hand-back are checked on each.",
          "Fault seams are the public io.Writer and a context function, both implemented by the harness; output nodes are text or one call (filters/expressions inside nodes belong to other properties).",
          "DESIGN.md §3 C14", "fault_enumeration"),
+ "C16": ("bounded-exhaustive enumeration of lexer inputs (all strings up to a length, structured opener/inner/closer strings) and of every single-token edit of a tag-covering corpus in every layout, positions checked against the source",
+         "Every token of every enumerated input is mapped from (line, col) back to a byte offset where its spelling must be found; every error produced by every single-token edit of the corpus must name an involved template, point inside it at its token, and shift exactly with an inserted prefix.",
+         "The position convention (line = 1 + LFs before, col = 1 + bytes since line start, strings at their quote) is read from the lexer; one fixture-pinned deviation (load failures) is a recorded known finding.",
+         "DESIGN.md §3 C16"),
 }
 
 NOT_YET = {}
